@@ -9,8 +9,17 @@ from contracts import C02 as _c02
 SK = "mlinsights/sklapi/"
 MM = "mlinsights/mlmodel/"
 ALLM = ("fit", "predict", "predict_proba", "decision_function", "transform", "get_params", "set_params")
-for _cls in (_c02.CloneFitted, _c02.AssertEqual):
+from contracts._clone import CloneFittedBase
+for _cls in (_c02.AssertEqual,):
     contract(_cls.key, "C15", assumed=True)(type(_cls.__name__, (_cls,), {}))
+
+
+@contract(_c02.CloneFitted.key, "C15")
+class CloneFitted(CloneFittedBase):
+    """clone_with_fitted_parameters is PROVED on generic estimator shapes (every fitted / private attribute deep-copied: no array cell shared
+    with the original); at the call sites of this property (TransferTransformer.fit) the real function is executed"""
+
+    pass
 
 
 def _P(E):
@@ -240,7 +249,10 @@ class TransferFit(_c02.TransferFit):
         e_ = s.fields.get("estimator_")
         if s.fields["copy_estimator"]:
             out["estimator__is_a_fitted_copy_not_the_original"] = z3.BoolVal(
-                isinstance(e_, Obj) and e_ is not s.fields["estimator"] and e_.fields.get("$copy_of") is s.fields["estimator"])
+                isinstance(e_, Obj) and e_ is not s.fields["estimator"] and (e_.fields.get("$copy_of") is s.fields["estimator"]
+                                                                             or e_.fields.get("$clone_of") is s.fields["estimator"])
+                and bool(e_.fields.get("$fitted"))
+                and (s.fields["trainable"] or z3.eq(e_.fields["$state"], s.fields["estimator"].fields["$state"])))   # the copy carries the fitted state
         else:
             out["estimator__is_the_given_object"] = z3.BoolVal(e_ is s.fields["estimator"])
         fits = [t for t in E.trace[old["tl"]:] if t["op"] == "fit"]
